@@ -89,13 +89,13 @@ fn state_of(w: &MWord, seg_is: impl Fn(&MSeg) -> bool) -> Option<St> {
     Some(St { len, stress: sy.stress, tone: sy.tone })
 }
 
-const KINDS: [&str; 7] = ["in-ipa", "in-group", "in-matrix", "in-syll", "out-seg", "out-seg-matrix-in", "out-syll"];
+const KINDS: [&str; 12] = ["in-ipa", "in-group", "in-matrix", "in-syll", "out-seg", "out-seg-matrix-in", "out-seg-feat", "out-syll", "ctx-syll-after", "ctx-syll-before", "ctx-seg-after", "ctx-seg-before"];
 
 impl Property for C05 {
     fn id(&self) -> &'static str { "C05" }
     fn rule(&self) -> String {
         "Exhaustive: 36 states of a target vowel/syllable (length 1-3 × unstressed/primary/secondary × tone 0/5/51/1234) × 405 modifier combinations ({absent,+,-} over long, overlong, stress, sec.stress × tone absent or one of four values) \
-         × 7 element kinds (input modifier on IPA `a:[M]`, group `V:[+low,M]`, matrix `[+syll,M]`, syllable `%:[M]`; output matrix on a segment `a > [M]` and `[+syll] > [M]`; output matrix on `%`) × target first/middle/last in its syllable (word `ti.<syll>.ku`). \
+         × 12 element kinds (input modifier on IPA `a:[M]`, group `V:[+low,M]`, matrix `[+syll,M]`, syllable `%:[M]`; output matrix on a segment `a > [M]`, `[+syll] > [M]` and, together with a feature change, `a > [+nasal,M]` (every copy must be changed); output matrix on `%`; the same modifiers on an element of the environment: `_%:[M]`, `%:[M]_`, `_a:[M]`, `[+syll,+low,M]_`, with the neighbouring segment as focus) × target first/middle/last in its syllable (word `ti.<syll>.ku`). \
          Match outcome (marker `[+nasal]` resp. `[tone:7]`) and resulting state are compared with a table model typed from the manual; where the manual leaves a choice (`[-sec.stress]` on a secondary-stressed syllable, `[+stress]` on an already stressed one) every documented-consistent result is accepted; \
          contradictory combinations must be errors in outputs and must be errors or never match in inputs; length on `%` must be rejected. One case = (state, kind, position) = 405 cells. Non-trivial: the model predicts a state change or a failed match for some cell. Both tiers enumerate the whole space.".into()
     }
@@ -117,24 +117,28 @@ impl Property for C05 {
         if state_of(&mw, |x| *x == a) != Some(s) { return Outcome::fail("word does not parse to the intended state", json!({"word": text, "parsed": mw.show()})) }
         let mut nontrivial = false;
         for m in all_mods() {
-            let is_syll = kind == "in-syll" || kind == "out-syll";
+            let is_syll = kind == "in-syll" || kind == "out-syll" || kind.starts_with("ctx-syll");
             let has_len = m.long.is_some() || m.over.is_some();
             let mt = mods_text(&m, true);
             if mt.is_empty() { continue }
             let rule = match kind { "in-ipa" => format!("a:[{mt}] > [+nasal]"), "in-group" => format!("V:[+low,{mt}] > [+nasal]"), "in-matrix" => format!("[+syll,+low,{mt}] > [+nasal]"),
-                                    "in-syll" => format!("%:[{mt}] > [tone:7] / %_%"), "out-seg" => format!("a > [{mt}]"), "out-seg-matrix-in" => format!("[+low] > [{mt}]"), _ => format!("% > [{mt}] / %_%") };
+                                    "in-syll" => format!("%:[{mt}] > [tone:7] / %_%"),
+                                    // the same modifiers on an element of the environment: the neighbour of the target is the focus and receives the marker
+                                    "ctx-syll-after" => format!("i > [+nasal] / _%:[{mt}]"), "ctx-syll-before" => format!("k > [+nasal] / %:[{mt}]_"),
+                                    "ctx-seg-after" => format!("[] > [+nasal] / _a:[{mt}]"), "ctx-seg-before" => format!("[] > [+nasal] / [+syll,+low,{mt}]_"),
+                                    "out-seg" => format!("a > [{mt}]"), "out-seg-feat" => format!("a > [+nasal,{mt}]"), "out-seg-matrix-in" => format!("[+low] > [{mt}]"), _ => format!("% > [{mt}] / %_%") };
             let got = api::apply_rules(&[rule.clone()], &w);
             let cell = |what: &str| format!("{kind}|{what}|long={:?},over={:?},stress={:?},sec={:?},tone={}|len{}", m.long, m.over, m.stress, m.sec, m.tone.is_some(), s.len).replace("Some(true)", "+").replace("Some(false)", "-").replace("None", "0");
             let detail = |exp: String, got: String| json!({"rule": rule, "word": text, "expected": exp, "got": got});
             let got = match got { Err(ab) => return Outcome::fail(format!("{}|{}", cell("abnormal"), ab.signature()), detail("a result".into(), format!("{ab:?}"))), Ok(g) => g };
-            if kind == "in-syll" && has_len {
+            if (kind == "in-syll" || kind.starts_with("ctx-syll")) && has_len {
                 // `%:[±long]`: a syllable can only have the parameters stress and tone
                 if got.is_ok() { return Outcome::fail(cell("length on % accepted"), detail("an error".into(), "Ok".into())) }
                 continue
             }
             // `% > [±long,…]`: the manual does not say; either an error or the length part is ignored
             let m = if kind == "out-syll" && has_len { if got.is_err() { continue } Mods { long: None, over: None, ..m } } else { m };
-            if kind.starts_with("in-") {
+            if kind.starts_with("in-") || kind.starts_with("ctx-") {
                 let expect_match = matches(&s, &m);
                 match got {
                     Err(e) => { if !contradictory(&m) { return Outcome::fail(cell("unexpected error"), detail(format!("match={expect_match}"), format!("{e:?}"))) } }
@@ -144,7 +148,17 @@ impl Property for C05 {
                         if fired != expect_match { return Outcome::fail(cell(if expect_match { "should match" } else { "should not match" }), detail(format!("match={expect_match}"), g.show())) }
                         if fired {
                             // the marker, and nothing else, changed
-                            let ok = if is_syll { let mut x = mw.clone(); x.sylls[1].tone = 7; x == g } else { let mut x = mw.clone(); for sg in x.sylls[1].segs.iter_mut() { if *sg == a { *sg = an; } } x == g };
+                            let ok = if kind.starts_with("ctx-") {
+                                let mut x = mw.clone(); let nas = crate::gen::fidx("nasal");
+                                let first_a = x.sylls[1].segs.iter().position(|y| *y == a).unwrap_or(0); let last_a = x.sylls[1].segs.iter().rposition(|y| *y == a).unwrap_or(0);
+                                match kind {
+                                    "ctx-syll-after" => x.sylls[0].segs[1].set_feat(nas, true),
+                                    "ctx-syll-before" => x.sylls[2].segs[0].set_feat(nas, true),
+                                    "ctx-seg-after" => if first_a == 0 { x.sylls[0].segs[1].set_feat(nas, true) } else { x.sylls[1].segs[first_a - 1].set_feat(nas, true) },
+                                    _ => if last_a + 1 == x.sylls[1].segs.len() { x.sylls[2].segs[0].set_feat(nas, true) } else { x.sylls[1].segs[last_a + 1].set_feat(nas, true) },
+                                }
+                                x == g
+                            } else if is_syll { let mut x = mw.clone(); x.sylls[1].tone = 7; x == g } else { let mut x = mw.clone(); for sg in x.sylls[1].segs.iter_mut() { if *sg == a { *sg = an; } } x == g };
                             if !ok { return Outcome::fail(cell("match changed more than the marker"), detail("only the marker".into(), g.show())) }
                         }
                         if !expect_match { nontrivial = true; }
@@ -158,10 +172,13 @@ impl Property for C05 {
                     (Err(e), Some(x)) => return Outcome::fail(cell("unexpected error"), detail(format!("{x:?}"), format!("{e:?}"))),
                     (Ok(g), Some(x)) => {
                         let g = MWord::from_asca(&g);
-                        let st = state_of(&g, |y| *y == a);
+                        // `a > [+nasal, M]`: every copy of the (possibly lengthened) segment carries the feature change
+                        let tgt = if kind == "out-seg-feat" { an } else { a };
+                        if kind == "out-seg-feat" && g.sylls.get(1).map(|sy| sy.segs.iter().any(|y| *y == a)).unwrap_or(true) { return Outcome::fail(cell("feature change did not reach every copy of the segment"), detail(format!("{x:?} all nasal"), g.show())) }
+                        let st = state_of(&g, |y| *y == tgt);
                         // the rest of the word is untouched: other syllables equal, consonants of the target syllable equal
                         let frame_ok = g.sylls.len() == 3 && g.sylls[0] == mw.sylls[0] && g.sylls[2] == mw.sylls[2]
-                            && g.sylls[1].segs.iter().filter(|y| **y != a).collect::<Vec<_>>() == mw.sylls[1].segs.iter().filter(|y| **y != a).collect::<Vec<_>>();
+                            && g.sylls[1].segs.iter().filter(|y| **y != tgt).collect::<Vec<_>>() == mw.sylls[1].segs.iter().filter(|y| **y != a).collect::<Vec<_>>();
                         let ok = frame_ok && st.map(|st| x.contains(&st)).unwrap_or(false);
                         if !ok { return Outcome::fail(cell("wrong resulting state"), detail(format!("{x:?}"), format!("{} = {st:?}", g.show()))) }
                         if !x.contains(&s) { nontrivial = true; }
